@@ -73,7 +73,7 @@ func (self *Interpreter) letStatement(node ast.AnalyzedLetStatement) *value.Inte
 	// TODO: improve performance here (not so much deref)
 
 	// TODO: is this ok? is it required to dynamically cast a value in here?
-	newValue, i := value.DeepCast(*rhsVal, node.OptType, node.Range, false)
+	newValue, i := value.DeepCastCatchable(*rhsVal, node.OptType, node.Range, false)
 	if i != nil {
 		return i
 	}
